@@ -194,6 +194,13 @@ static void build_tprog(tprog_t *tp, rng_t *r, const char *focus) {
                 p->ops[si].thread = (uint8_t) th;
                 sig_of[th][nsig_of[th]] = sid; types[th][nsig_of[th]] = t; nsig_of[th]++;
                 tp->late_defs++;
+                /* flush - definition - flush with nothing queued in between: the definition is written by this thread */
+                if (rng_chance(r, 1, 2)) {
+                    op_t *f1 = prog_add(p, OP_FLUSH); f1->thread = (uint8_t) th;
+                    /* move the definition behind the first flush: swap the two ops */
+                    op_t tmp = p->ops[si]; p->ops[si] = *f1; *f1 = tmp;
+                    op_t *f2 = prog_add(p, OP_FLUSH); f2->thread = (uint8_t) th;
+                }
                 continue;
             }
             if (rng_chance(r, 1, 40)) {
@@ -275,7 +282,7 @@ static struct jls_twr_s *g_wr;
 static int g_controlled;
 static void api(const char *n) { if (g_controlled) v_api(n); }   /* the crash-context page is single-writer: only used when one thread runs at a time */
 static tprog_t *g_tp;
-static _Atomic int64_t n_flush_ok, n_flush_timeout, n_markers_checked, n_rejected, n_accepted, n_busy_timeouts;
+static _Atomic int64_t n_flush_sync_checked, n_flush_ok, n_flush_timeout, n_markers_checked, n_rejected, n_accepted, n_busy_timeouts;
 static void fill_source(const psrc_t *s, struct jls_source_def_s *d) { *d = s->def; d->name = s->s[0]; d->vendor = s->s[1]; d->model = s->s[2]; d->version = s->s[3]; d->serial_number = s->s[4]; }
 static void fill_signal(const psig_t *s, struct jls_signal_def_s *d) { *d = s->def; d->name = s->name; d->units = s->units; }
 
@@ -310,8 +317,21 @@ static void exec_one(prog_t *p, op_t *o, op_t *prev) {
         }
         case OP_FLUSH: {
             coop_call_begin("jls_twr_flush"); api("jls_twr_flush");
+            size_t ev_at_call = g_controlled ? g_io.n : 0;
             rc = jls_twr_flush(g_wr);
             if (rc == 0) n_flush_ok++; else n_flush_timeout++;
+            /* oracle at the instant of return: every backend write issued before the call (by the writer thread or, for
+             * definitions, by an application thread) is followed by an fsync */
+            if (rc == 0 && g_controlled) {
+                int64_t last_w = -1, sync_after = -1;
+                for (size_t e = 0; e < ev_at_call && e < g_io.n; ++e) if (g_io.ev[e].op == IO_WRITE) last_w = (int64_t) e;
+                for (size_t e = last_w < 0 ? 0 : (size_t) last_w; e < g_io.n; ++e) if (g_io.ev[e].op == IO_FSYNC) { sync_after = (int64_t) e; break; }
+                n_flush_sync_checked++;
+                if (last_w >= 0 && sync_after < 0) {
+                    char wj2[200]; snprintf(wj2, sizeof(wj2), "{\"queue\":%u,\"last_write_event\":%lld,\"events_at_call\":%zu,\"events_at_return\":%zu}", g_tp->qsize, (long long) last_w, ev_at_call, g_io.n);
+                    v_violation("C07", "flush|unsynced-write-at-return", wj2, "jls_twr_flush returned 0 but no fsync followed the last backend write issued before the call");
+                }
+            }
             /* oracle at the instant of return: the marker submitted just before is on disk and an fsync followed it */
             if (rc == 0 && g_controlled && prev && prev->expect_reject == 9 && prev->rc == 0 && prev->thread == 0 && o->thread == 0 && g_marker_armed) {
                 n_markers_checked++;
@@ -411,7 +431,14 @@ static void run_case(uint64_t idx, void *vctx) {
     if (have1 && !race) pthread_join(th1, NULL);
     coop_call_begin("jls_twr_close"); v_api("jls_twr_close");
     size_t ev_before_close = g_controlled ? g_io.n : 0;
-    if (race) { pthread_mutex_lock(&g_hm); while (!g_t1_done) pthread_cond_wait(&g_hc1, &g_hm); g_main_done = 1; pthread_cond_signal(&g_hc); pthread_mutex_unlock(&g_hm); }
+    if (race) {
+        pthread_mutex_lock(&g_hm); while (!g_t1_done) pthread_cond_wait(&g_hc1, &g_hm); pthread_mutex_unlock(&g_hm);
+        /* drain the queue while thread 1 is blocked: its few calls then fit without waiting for the writer thread
+         * (a call that has to wait would let the writer thread finish CLOSE first, and a call issued after close has
+         * returned is a caller error) */
+        coop_call_begin("jls_twr_flush"); jls_twr_flush(g_wr); coop_call_end();
+        pthread_mutex_lock(&g_hm); g_main_done = 1; pthread_cond_signal(&g_hc); pthread_mutex_unlock(&g_hm);
+    }
     g_closing = 1;
     rc = jls_twr_close(g_wr);
     coop_call_end(); v_api("");
@@ -482,7 +509,7 @@ static void run_case(uint64_t idx, void *vctx) {
     v_count("C06", "queue_allocations", q_allocs); v_count("C06", "queue_full_observed", q_fails); v_count("C06", "queue_wraps", q_wraps); v_count("C06", "queue_empty_resets", q_resets);
     v_count("C06", "lockset_accesses_queue", ls_queue.accesses); v_count("C06", "lockset_accesses_writer_state", ls_wr.accesses);
     v_count("C06", "scheduling_points", st.steps); v_count("C06", "context_switches", st.switches); v_count("C06", "virtual_time_jumps", st.time_jumps);
-    v_count("C07", "flush_returned_0", n_flush_ok); v_count("C07", "flush_timed_out", n_flush_timeout); v_count("C07", "flush_markers_checked", n_markers_checked);
+    v_count("C07", "flush_returned_0", n_flush_ok); v_count("C07", "flush_timed_out", n_flush_timeout); v_count("C07", "flush_markers_checked", n_markers_checked); v_count("C07", "flush_sync_checked", n_flush_sync_checked);
     v_count("C07", "closes", 1); v_count("C07", "send_timeouts", n_busy_timeouts); v_count("C07", "scheduling_points", st.steps); v_count("C07", "sleeps", st.sleeps);
     { char sg[64]; snprintf(sg, sizeof(sg), "sig=%016llx", (unsigned long long) st.signature); v_feature("C06", 1, "schedule|%s", g_controlled ? sg : "real"); v_feature("C07", 1, "schedule|%s", g_controlled ? sg : "real"); }
     if ((idx % 64) < 2) { jb_t j; jb_init(&j); jb_obj_begin(&j); jb_str(&j, "config", tp.feat); jb_str(&j, "schedule", schedfeat); jb_int(&j, "calls", (int64_t) p->n); jb_int(&j, "steps", st.steps); jb_int(&j, "switches", st.switches); jb_obj_end(&j); v_sample("C06", j.b); v_sample("C07", j.b); jb_free(&j); }
